@@ -139,6 +139,10 @@ def generate(prng, tier, index):
                     cur = cur + [k2]
                 else:
                     edits.append({"del": [], "set": []})
+            if prng.random() < 0.4:
+                # ... and / or one entry of the loader's live motif-size list (a size-1 topology becomes a real motif, ...)
+                i = prng.randrange(len(sizes))
+                edits[-1]["size"] = [i, prng.choice((1, 2, 3, 4)) if sizes[i] != 1 else prng.choice((2, 3, 3, 5))]
         sc["dist_edits"] = edits
     return sc
 
@@ -277,6 +281,11 @@ def execute(sc, ctx):
                 jdd_before = dict(d)
                 caller_before = dict(jdd)
                 ctx.probe("distribution_edited_in_place_between_samples")
+            if ed.get("size"):
+                i, new = ed["size"]
+                obj.motif_sizes[i] = new                 # the loader's own list object, edited in place
+                sc = dict(sc, sizes=[new if j == i else x for j, x in enumerate(sc["sizes"])])
+                ctx.probe("motif_size_edited_in_place_between_samples")
         abort_at = sc.get("abort_at") if (r == 0 and sc["variant"] == "faults") else None
         if abort_at is not None and sc.get("abort_line") is not None:
             st, res = ctx.call(src, obj.sample_jds_from_jdd, n_arg(sc), abort_at_line=sc["abort_line"], budget=20000, label="sample[interrupted at line]")
